@@ -1112,3 +1112,100 @@ Proof.
     destruct (send_message_separate s (as_response_address r) a MonResp (Some (mtype m)) s2 o2 e eq_refl (fun _ => conj Hg' En) Es) as (_ & _ & Hout).
     rewrite rpeer_ara in Hout. exact Hout.
 Qed.
+
+(* ------------------------------------------------------------------ round 5: clause-audit remedies *)
+(* a NON request is never acknowledged: over every continuation, no ACK-typed message under its (peer, message ID) *)
+Theorem non_request_never_acked s r m s1 o1 es s' os :
+  BInv s -> mtype m = NON -> is_request (code m) = true ->
+  aget zz_eqb (recent s) (rpeer r, mid m) = None -> cnt (rpeer r) (mid m) (piggy s) = 0%nat ->
+  dispatch_message s r m = (s1, o1) -> run s1 es = (s', os) -> Forall (ev_ok (rpeer r) (mid m)) es ->
+  acks (rpeer r) (mid m) (o1 ++ outputs_of os) = 0%nat.
+Proof.
+  intros HB Ht Hrq Hfresh Hcnt Hd Hrun Hok.
+  destruct (dedup_fresh s r m Hfresh) as (s0 & Hdd & Hp0 & _).
+  assert (Hc0 : (code m =? 0) = false) by (unfold is_request in Hrq; lia).
+  assert (Hpr : tm_process_request s0 r m = (s1, o1)).
+  { unfold dispatch_message in Hd. rewrite Hrq, Hdd, Ht in Hd. unfold EMPTY in Hd. rewrite Hc0 in Hd. cbn [app] in Hd.
+    unfold _process_request in Hd. rewrite Ht in Hd. destruct (tm_process_request s0 r m) as [sx ox]. injection Hd as <- <-. reflexivity. }
+  pose proof (tm_process_request_acks (rpeer r) (mid m) s0 r m s1 o1 Hpr) as Hk. unfold okp in Hk. rewrite Hp0, Hcnt in Hk.
+  assert (HB1 : BInv s1) by (eapply dispatch_message_ok; eauto).
+  pose proof (acks_bounded es s1 s' os (rpeer r) (mid m) Hrun HB1 Hok) as Hb.
+  rewrite acks_app. lia.
+Qed.
+
+(* the cells of the table without a reply are also silent towards the layers above: no handler is started or cancelled, nothing is
+   delivered (for response codes a matched response is of course delivered, hence the exception) *)
+Theorem misfit_no_upward s r m s' o : BInv s -> fresh s r m -> dispatch_message s r m = (s', o) ->
+  table (mtype m) (classify (code m)) (known s r m) (is_multicast_locally r) = NoReply ->
+  classify (code m) <> CResponse -> upward o = [].
+Proof.
+  intros HB Hf H Htab Hnr. unfold dispatch_message in H. unfold classify in Htab, Hnr.
+  destruct (is_request (code m)) eqn:Erq.
+  - destruct (dedup_fresh s r m (Hf Erq)) as (s0 & Hd & _ & _ & _ & _ & _ & _ & _ & HB0). rewrite Hd in H.
+    assert (Hc0 : (code m =? 0) = false) by (unfold is_request in Erq; lia).
+    rewrite Hc0 in Htab. unfold EMPTY in H. rewrite Hc0 in H.
+    destruct (mtype m) eqn:Et; cbn [table] in Htab; try discriminate;
+      destruct (_remove_exchange s0 r m) as [s1 o1] eqn:E1; inv H; apply remove_exchange_quiet in E1; auto;
+      rewrite app_nil_r; cbn; apply quiet_replies; exact (proj1 E1).
+  - unfold EMPTY in H. destruct (code m =? 0) eqn:Ec0.
+    + destruct (mtype m) eqn:Et; cbn [table] in Htab; try discriminate.
+      * inv H. reflexivity.
+      * destruct (_remove_exchange s r m) as [s1 o1] eqn:E1. inv H. apply remove_exchange_quiet in E1; auto. rewrite app_nil_r. cbn. apply quiet_replies. exact (proj1 E1).
+      * destruct (_remove_exchange s r m) as [s1 o1] eqn:E1. inv H. apply remove_exchange_quiet in E1; auto. rewrite app_nil_r. cbn. apply quiet_replies. exact (proj1 E1).
+    + destruct (is_response (code m)) eqn:Ers; [contradiction Hnr; reflexivity|].
+      destruct (mtype m) eqn:Et; try (inv H; reflexivity);
+        destruct (_remove_exchange s r m) as [s1 o1] eqn:E1; inv H; apply remove_exchange_quiet in E1; auto;
+        rewrite app_nil_r; cbn; apply quiet_replies; exact (proj1 E1).
+Qed.
+
+(* a CON request that is answered at once (absent resource: 4.04, unknown method: 4.05, fast resource, raising resource: 5.00) is
+   acknowledged in the very step of its arrival, by exactly one ACK-typed message under its message ID, and leaves no opportunity behind *)
+Lemma send_response_hit s r req c rnr pl s' o M h : aget pk_eqb (piggy s) (rpeer r, token req) = Some (M, h) -> is_response c = true ->
+  send_response s r req c rnr pl = (s', o) ->
+  acks (rpeer r) M o = 1%nat /\ aget pk_eqb (piggy s') (rpeer r, token req) = None.
+Proof.
+  intros Hg Hc H. unfold send_response in H.
+  match type of H with context [send_message ?x ?rr ?aa ?mm ?q] => destruct (send_message x rr aa mm q) as [[sx ox] e] eqn:Es; set (a := aa) in Es end.
+  injection H as <- <-.
+  assert (Hg' : aget pk_eqb (piggy s) (rpeer (as_response_address r), a_token a) = Some (M, h)) by (rewrite rpeer_ara; exact Hg).
+  destruct (no_response_of a) eqn:En.
+  - destruct (send_message_suppressed_ack s (as_response_address r) a MonResp (Some (mtype req)) M h Hc Hg' En) as (sy & Hy & Hp & _).
+    rewrite Hy in Es. injection Es as <- <- _. split.
+    + unfold acks. cbn. rewrite !rpeer_ara, !Z.eqb_refl. reflexivity.
+    + rewrite Hp. cbn [a_token a]. rewrite rpeer_ara. apply aget_adel_same.
+  - destruct (send_message_piggyback s (as_response_address r) a MonResp (Some (mtype req)) M h Hc Hg' En) as (sy & Hy & Hp & _).
+    rewrite Hy in Es. injection Es as <- <- _. split.
+    + unfold acks. cbn. rewrite !rpeer_ara, !Z.eqb_refl. reflexivity.
+    + rewrite Hp. cbn [a_token a]. rewrite rpeer_ara. apply aget_adel_same.
+Qed.
+
+Theorem immediate_answer_piggybacked s r m s1 o1 : mtype m = CON -> is_request (code m) = true ->
+  path m <> 0 \/ ~ (1 <= code m <= 7) -> fresh s r m -> aget pk_eqb (piggy s) (rpeer r, token m) = None ->
+  dispatch_message s r m = (s1, o1) ->
+  acks (rpeer r) (mid m) o1 = 1%nat /\ aget pk_eqb (piggy s1) (rpeer r, token m) = None.
+Proof.
+  intros Ht Hrq Himm Hf Ho3 Hd.
+  destruct (dedup_fresh s r m (Hf Hrq)) as (s0 & Hdd & Hp0 & _).
+  assert (Hc0 : (code m =? 0) = false) by (unfold is_request in Hrq; lia).
+  assert (Hpr : _process_request s0 r m = (s1, o1)).
+  { unfold dispatch_message in Hd. rewrite Hrq, Hdd, Ht in Hd. unfold EMPTY in Hd. rewrite Hc0 in Hd. cbn [app] in Hd.
+    destruct (_process_request s0 r m) as [sx ox]. injection Hd as <- <-. reflexivity. }
+  rewrite <- Hp0 in Ho3. clear Hd Hdd.
+  unfold _process_request in Hpr. rewrite Ht in Hpr. unfold call_later_a in Hpr. cbv zeta in Hpr. cbn [piggy set_atimers] in Hpr. rewrite Ho3 in Hpr.
+  match type of Hpr with tm_process_request ?x r m = _ => set (sa := x) in Hpr end.
+  assert (Hga : aget pk_eqb (piggy sa) (rpeer r, token m) = Some (mid m, seq s0)) by (subst sa; cbn [piggy set_piggy]; apply aget_aset_same).
+  unfold tm_process_request in Hpr.
+  set (q := match aget ik_eqb (incoming sa) (token m, rpeer r) with Some sv => _ | None => (sa, []) end) in Hpr.
+  assert (Hq : piggy (fst q) = piggy sa /\ acks (rpeer r) (mid m) (snd q) = 0%nat) by (subst q; destruct (aget ik_eqb _ _); cbn; auto).
+  destruct q as [sb ob]. cbn [fst snd] in Hq. destruct Hq as [Hpb Hab]. rewrite <- Hpb in Hga.
+  dlet Hpr s2 o2 E. injection Hpr as <- <-. rewrite acks_app, Hab. cbn [Nat.add].
+  assert (Hresp : forall c rnr pl, is_response c = true -> send_response sb r m c rnr pl = (s2, o2) ->
+            acks (rpeer r) (mid m) o2 = 1%nat /\ aget pk_eqb (piggy s2) (rpeer r, token m) = None)
+    by (intros; eapply send_response_hit; eauto).
+  destruct (negb _) eqn:E1; [eapply Hresp; [|exact E]; reflexivity|].
+  destruct (negb ((1 <=? code m) && (code m <=? 7))) eqn:E2; [eapply Hresp; [|exact E]; reflexivity|].
+  destruct (path m =? 0) eqn:E3. { exfalso. destruct Himm as [Hp|Hc]; [lia|apply Hc; lia]. }
+  destruct (path m =? 1).
+  - eapply Hresp; [|exact E]. unfold default_code. destruct ((code m =? 1) || (code m =? 5)); [reflexivity|]. destruct (code m =? 4); reflexivity.
+  - eapply Hresp; [|exact E]; reflexivity.
+Qed.
